@@ -17,6 +17,31 @@ import (
 var c15Pats = []string{"^a", "b$", "c+", "(", "^[z-a]+$", "z-a", "[[:alphanum:]]", "[:alphanum:]"}
 var c15Valid = []bool{true, true, true, false, false, true, false, true}
 
+// long expressions (> 64 bytes) of the same length that share their first and last 32 bytes and
+// differ in the middle only: two valid ones with different meanings and one that does not compile
+var c15Long = []string{
+	"^(?:ALPHA|BRAVO|CHARLIE|DELTA|ECHO|FOXTROT|GOLF|HOTEL|INDIA|JULIET|KILO|LIMA|MIKE|NOVEMBER|OSCAR)$",
+	"^(?:ALPHA|BRAVO|CHARLIE|DELTA|ECHO|FOXTROT|GOLF|MOTEL|INDIA|JULIET|KILO|LIMA|MIKE|NOVEMBER|OSCAR)$",
+	"^(?:ALPHA|BRAVO|CHARLIE|DELTA|ECHO|FOXTROT|GOLF|HO(EL|INDIA|JULIET|KILO|LIMA|MIKE|NOVEMBER|OSCAR)$",
+}
+var c15LongValid = []bool{true, true, false}
+
+// HarnessC15Long: two or three uses of long expressions that agree on length, head and tail
+func HarnessC15Long() {
+	for step := 0; step < 2+verifTier(); step++ {
+		i := verifChoose(len(c15Long))
+		ok, src := c15Use(c15Long[i])
+		verifAssert(ok == c15LongValid[i], "invalid-pattern-reported-valid-compiled")
+		verifAssert(!ok || src == c15Long[i], "expression-is-the-requested-one")
+		if ok {
+			r, _ := compileRegexp(c15Long[i])
+			verifAssert(r.MatchString("HOTEL") == verifMatches(c15Long[i], "HOTEL"), "matching-behaves-like-go-regexp")
+			verifAssert(Pattern("p", "q", "MOTEL", c15Long[i]) == nil == verifMatches(c15Long[i], "MOTEL"), "pattern-helper-uses-the-requested-expression")
+		}
+	}
+	verifReach("end")
+}
+
 func c15Use(p string) (ok bool, src string) {
 	r, err := compileRegexp(p)
 	if err != nil {
@@ -133,7 +158,7 @@ func HarnessC05Shared() {
 // object keyword, shared by two goroutines validating two objects at the same time.
 func HarnessC05SharedObject() {
 	s := &spec.Schema{}
-	switch verifChoose(4) {
+	switch verifChoose(5) {
 	case 0:
 		s.Properties = map[string]spec.Schema{"a": strSchema("", 1)}
 		s.PatternProperties = map[string]spec.Schema{"^s_": strSchema("", 1), "_n$": schemaOfType("number")}
@@ -148,11 +173,19 @@ func HarnessC05SharedObject() {
 		inner.PatternProperties = map[string]spec.Schema{"^s_": strSchema("", 1)}
 		s.AllOf = []spec.Schema{inner, {}}
 		s.Dependencies = spec.Dependencies{"a": spec.SchemaOrStringArray{Property: []string{"s_x"}}}
-	default:
+	case 3:
 		inner := spec.Schema{}
 		inner.PatternProperties = map[string]spec.Schema{"^s_": strSchema("", 1)}
 		inner.AdditionalProperties = &spec.SchemaOrBool{Allows: false}
 		s.AnyOf = []spec.Schema{inner, schemaOfType("string")}
+	default: // not, oneOf and properties with defaults (whose schemata are recorded in the result)
+		no := spec.Schema{}
+		no.Required = []string{"zz"}
+		s.Not = &no
+		withDefault := strSchema("", 1)
+		withDefault.Default = "d"
+		s.Properties = map[string]spec.Schema{"a": withDefault}
+		s.OneOf = []spec.Schema{schemaOfType("object"), schemaOfType("string")}
 	}
 	v := NewSchemaValidator(s, nil, "", nil)
 	objs := []interface{}{
